@@ -575,6 +575,26 @@ def r12_erase_found_only(chk, prog, rule='R12'):
     chk.require(n >= 3, 'erase( iterator) sites in the argument handling: %d' % n)
 
 
+def r13_owning_members(chk, prog, rule='R13'):
+    """objects that destinations point into stay alive as long as somebody uses them: the usage settings object is
+    shared (std::shared_ptr) between a handler, its description printer and the handlers of a group, and the
+    standard arguments write through raw pointers into it.  Every class of the argument handling that needs such an
+    object holds the smart pointer BY VALUE - a member that is a reference to somebody else's smart pointer owns
+    nothing: when the other pointer is re-seated the object is destroyed under the writers (heap use after free)"""
+    n = bad = 0
+    for cn, c in sorted(prog.classes.items()):
+        if not cn.startswith('celma::prog_args::'):
+            continue
+        for fld in c.get('fields', []):
+            t = fld.get('t') or ''
+            if 'shared_ptr<' in t or 'unique_ptr<' in t or t.replace('const ', '').strip().rstrip('&').strip().endswith('_params_t'):
+                n += 1
+                is_ref = t.rstrip().endswith('&')
+                chk.check(not is_ref, rule, cn, 'the smart-pointer member %s owns its object (held by value)' % fld['name'],
+                          '', 'member type %s: a reference to another owner' % t)
+    chk.require(n >= 3, 'smart-pointer members in the argument handling: %d' % n)
+
+
 def run(chk):
     drv = os.path.join(VERIF, 'drivers', 'prog_args_dest.cpp')
     units = units_matching('library/prog_args/', 'library/appl/arg_string_2_array.cpp', 'library/common/') + [drv]
@@ -619,6 +639,8 @@ def run(chk):
     r11_downcast_provenance(chk, prog)
     chk.rule('R12', 'erase( iterator) only with the iterator of a successful search', 3)
     r12_erase_found_only(chk, prog)
+    chk.rule('R13', 'smart-pointer members are held by value (shared objects stay alive under their writers)', 3)
+    r13_owning_members(chk, prog)
     chk.rule('R6', 'ArgListIterator: the cursor invariant (four cases) is established and preserved; every argv[ i] '
              'and word[ j] access is inside', 40)
     from . import c04_cursor
